@@ -11,7 +11,7 @@ Definition list_spec (l : list nat) (o : DList.op) : list nat * list N :=
   | DList.RemoveLast => (removelast l, [DList.oN (olast l)])
   | DList.Remove n =>
       (* O(1) removal of a given member; a non-member is reported and nothing changes *)
-      if existsb (Nat.eqb n) l then (remove n l, [R_TRUE]) else (l, [R_FALSE])
+      if existsb (Nat.eqb n) l then (Base.remove n l, [R_TRUE]) else (l, [R_FALSE])
   | DList.Drain => ([], R_UNIT :: map nN l)
   | DList.ReverseDrain => ([], R_UNIT :: map nN (rev l))
   | DList.PeekFirst => (l, [DList.oN (hd_error l)])
